@@ -80,7 +80,7 @@ func genConcCase(rng *simrt.Rng, o *ConcOpts) *ConcCase {
 				if rng.Intn(3) == 0 {
 					op.Load.Points = 1 + rng.Intn(6)
 				}
-				if o.AllowStall && rng.Intn(12) == 0 {
+				if o.AllowStall && rng.Intn(stallP(o)) == 0 {
 					op.Load.Stall = true
 				}
 			}
@@ -428,4 +428,11 @@ func minimizeConc(seed uint64, cc *ConcCase, sched []simrt.Deviation, o *ConcOpt
 	try(func(c *Cfg) { c.Refresh = "none" })
 	try(func(c *Cfg) { c.Expiry = "none" })
 	return cur, cs
+}
+
+func stallP(o *ConcOpts) int {
+	if o.StallP > 0 {
+		return o.StallP
+	}
+	return 12
 }
